@@ -26,6 +26,16 @@ def run(ctx):
     render.cel_rows_grow_only(ctx, rule='K3')
     render.gate(ctx)
     render.ancestor_walk(ctx)
+    # "visible" is C09's notion: the parent table the gate walks must be the nearest-preceding-lower-level one (seed C02-j replaced the
+    # backward search by a look at the previous layer only)
+    import C09 as _c09
+    import rule as _R
+    import invariants as _inv
+    v = _R.View(ctx, {'V1': 'K4', 'V3': 'K4', 'V4': 'K4', 'V5': 'K4'})
+    _c09.visibility(v)
+    _c09.parent_search(v)
+    ok10, why10 = _inv.Inv(ctx).get('I10')
+    ctx.inst('K4', 'parent table', ok10, why10, None, key='asefile::layer::compute_parents|K4|I10')
     render.opacity_and_mode(ctx)
     render.blend_table(ctx)
     render.operands_and_offset(ctx)
